@@ -4,8 +4,9 @@
 //! `Bitswap::run()` runs as a task of a current-thread tokio runtime with a paused clock. The adapter
 //! plays everything around it: the sender of `InnerTransportEvent`s, the command channel of every
 //! connection, the transport manager's command channel and shared peer map, the far end of every
-//! substream. After each operation the runtime runs until nothing can make progress any more (a 40 s
-//! sleep on the paused clock: the 15 s `WRITE_TIMEOUT` of a stalled write fires on the way).
+//! substream. After each operation the runtime runs until nothing can make progress any more (rounds
+//! of 40 s on the paused clock - the 15 s `WRITE_TIMEOUT` of a stalled write fires on the way - until a
+//! round passes in which no far end saw anything happen).
 //!
 //! Operations (`p<i>` = peer number, peers 1..=3 have a dialable address):
 //!
@@ -14,20 +15,30 @@
 //!   gone) / closed / its command channel gone
 //! * `dialfail <p>`                           `DialFailure`
 //! * `view <p> c|g|d`                         the manager's view of the peer (connected/dialing/disconnected)
-//! * `subopen s<n> [fail=<k>[.<off>]|stall=<k>]`  answer an `OpenSubstream` command with an outbound
-//!   substream that accepts `k` complete frames (and `off` bytes of the next) before writes fail / stall
+//! * `subopen s<n> [fail=<k>[.<off>]|stall=<k>] [slow=<ms>[,<ms>..]]`  answer an `OpenSubstream` command with
+//!   an outbound substream that accepts `k` complete frames (and `off` bytes of the next) before writes fail /
+//!   stall; `slow`: a slow link - the far end takes that much VIRTUAL time before it accepts the first byte of
+//!   each successive frame (the last value repeats). The clock is paused: tokio advances it to the next timer
+//!   whenever nothing else can run, so a frame slower than `WRITE_TIMEOUT` makes the per-frame timeout of
+//!   `send_request` / `send_response` fire, and frames that are each faster may take longer in total.
 //! * `subfail s<n>`                           `SubstreamOpenFailure`
-//! * `plan s<n> ok|fail=<k>[.<off>]|stall=<k>`  change the fate of a substream the protocol still holds
+//! * `plan s<n> ok|fail=<k>[.<off>]|stall=<k> [slow=..]` / `plan s<n> slow=..`  change the fate of a substream
+//!   the protocol still holds
 //! * `resp <p> k=<v>/<codec>/<mh>/<dlen> <entries>`   `BitswapHandle::send_response`; entries are
 //!   `b<size>.<fill>` (block), `h<i>` / `d<i>` (presence Have / DontHave of CID number `i`), or `-`
 //! * `req <p> k=... <cids>`                   `BitswapHandle::send_request`; `b<i>` / `h<i>` or `-`
 //! * `insub <p>`                              inbound substream `i<k>` of the peer
-//! * `inmsg i<k> [w=<cidhex>/<type>+..] [b=<prefixhex>:<data>[:<digest>]+..] [p=<cidhex>/<type>+..] [nowl]`
-//!   the remote writes one prost-encoded message
+//! * `inmsg i<k> [w=<cidhex>/<type>+..] [b=<prefixhex>:<data>[:<digest>]+..] [p=<cidhex>/<type>+..] [nowl]
+//!   [cut=<a>[,<b>..] gap=<ms>] [hold=<n>]`
+//!   the remote writes one prost-encoded message; `cut`/`gap`: a slow remote - the frame arrives in pieces
+//!   (cut at those byte offsets of the frame, length prefix included) with `gap` ms of virtual time between two
+//!   pieces; `hold=<n>`: only the first `n` bytes of the frame arrive in this operation, the rest with
+//! * `inrest i<k> <the arguments of the held inmsg>`   (other operations may come in between)
 //! * `inbad i<k> <hex>` / `inbig i<k>` / `inclose i<k>` / `inreset i<k>`   undecodable payload, length
 //!   prefix above the limit, clean close, reset
 //!
-//! Observation: `<result>;<service calls>;<user events>;<frames written per substream>;<protocol state>`.
+//! Observation: `<result>;<service calls>;<user events>;<frames written per substream>;<protocol state>`;
+//! `s<n>@<ms>=..`: the last of these frames was accepted `ms` of virtual time after the operation began.
 
 use super::{
     config, schema, Bitswap, BitswapEvent, BitswapHandle, BlockPresenceType, Config, Prefix,
@@ -71,6 +82,7 @@ use tokio::{
 use std::{
     cell::RefCell,
     collections::{BTreeMap, HashMap, HashSet},
+    future::Future,
     io,
     pin::Pin,
     sync::{Arc, Mutex},
@@ -82,6 +94,9 @@ const SETTLE: Duration = Duration::from_secs(40);
 const FOREVER: Duration = Duration::from_secs(10 * 365 * 24 * 3600);
 const MAX_ENTRIES: usize = 64;
 const MAX_BLOCK: usize = 1 << 22;
+const MAX_DELAYS: usize = 16;
+const MAX_DELAY_MS: u64 = 600_000;
+const MAX_SETTLE_ROUNDS: usize = 512;
 
 thread_local! {
     static SNAP: RefCell<String> = RefCell::new(String::new());
@@ -215,13 +230,22 @@ struct OutShared {
     /// complete frames accepted since the plan was set
     frames: usize,
     plan: Plan,
+    /// virtual ms the far end takes before it accepts the first byte of frame `frames`, `frames + 1`, ..
+    /// (counted since the plan was set; the last entry repeats)
+    delays: Vec<u64>,
+    /// the delay of the frame being written has passed
+    slept: bool,
+    /// a delay is running
+    sleeping: bool,
+    /// when the last complete frame was accepted
+    accepted_at: Option<tokio::time::Instant>,
     failed: bool,
     dropped: bool,
     waker: Option<Waker>,
 }
 
 /// The transport end of an outbound substream: records what the protocol writes, fails as planned.
-struct OutIo(Arc<Mutex<OutShared>>);
+struct OutIo(Arc<Mutex<OutShared>>, Option<Pin<Box<tokio::time::Sleep>>>);
 
 impl AsyncRead for OutIo {
     fn poll_read(self: Pin<&mut Self>, _cx: &mut Context<'_>, _buf: &mut ReadBuf<'_>) -> Poll<io::Result<()>> {
@@ -231,7 +255,8 @@ impl AsyncRead for OutIo {
 
 impl AsyncWrite for OutIo {
     fn poll_write(self: Pin<&mut Self>, cx: &mut Context<'_>, buf: &[u8]) -> Poll<io::Result<usize>> {
-        let mut s = self.0.lock().unwrap();
+        let this = self.get_mut();
+        let mut s = this.0.lock().unwrap();
         if s.failed {
             return Poll::Ready(Err(io::ErrorKind::BrokenPipe.into()));
         }
@@ -254,6 +279,25 @@ impl AsyncWrite for OutIo {
                     s.waker = Some(cx.waker().clone());
                     return Poll::Pending;
                 },
+        }
+        // slow link: the first byte of a frame is accepted only after the frame's delay
+        let refusing = matches!(s.plan, Plan::Fail(k, _) if s.frames >= k);
+        if s.need.is_none() && s.header.is_empty() && !s.slept && !refusing {
+            let ms = match s.delays.as_slice() {
+                [] => 0,
+                d => d[s.frames.min(d.len() - 1)],
+            };
+            if ms > 0 {
+                let sleep =
+                    this.1.get_or_insert_with(|| Box::pin(tokio::time::sleep(Duration::from_millis(ms))));
+                s.sleeping = true;
+                if sleep.as_mut().poll(cx).is_pending() {
+                    return Poll::Pending;
+                }
+                this.1 = None;
+                s.sleeping = false;
+            }
+            s.slept = true;
         }
         let n = match s.need {
             None => {
@@ -278,6 +322,8 @@ impl AsyncWrite for OutIo {
             s.frames += 1;
             s.in_frame = 0;
             s.need = None;
+            s.slept = false;
+            s.accepted_at = Some(tokio::time::Instant::now());
         }
         Poll::Ready(Ok(n))
     }
@@ -482,15 +528,29 @@ pub struct Session {
     outs: BTreeMap<usize, Out>,
     /// far ends of the inbound substreams: `i<k>` (with the peer)
     ins: Vec<(u64, PipeCtl)>,
+    /// `i<k>` -> the part of a frame the remote has not written yet (`inmsg .. hold=<n>`)
+    held: BTreeMap<usize, Vec<u8>>,
 }
 
 fn idx(s: &str, prefix: char) -> Option<usize> {
     s.strip_prefix(prefix)?.parse().ok()
 }
 
-fn parse_plan(t: &[&str]) -> Option<Plan> {
-    match t {
-        [] | ["ok"] => Some(Plan::Ok),
+/// `[ok|fail=<k>[.<off>]|stall=<k>] [slow=<ms>[,<ms>..]]`
+fn parse_plan(t: &[&str]) -> Option<(Plan, Vec<u64>)> {
+    let (t, delays) = match t.split_last() {
+        Some((last, rest)) if last.starts_with("slow=") => {
+            let delays: Vec<u64> =
+                last["slow=".len()..].split(',').map(|d| d.parse().ok()).collect::<Option<_>>()?;
+            if delays.is_empty() || delays.len() > MAX_DELAYS || delays.iter().any(|d| *d > MAX_DELAY_MS) {
+                return None;
+            }
+            (rest, delays)
+        }
+        _ => (t, Vec::new()),
+    };
+    let plan = match t {
+        [] | ["ok"] => Plan::Ok,
         [p] => {
             if let Some(v) = p.strip_prefix("fail=") {
                 let (k, off) = match v.split_once('.') {
@@ -501,13 +561,14 @@ fn parse_plan(t: &[&str]) -> Option<Plan> {
                 if off > 2 {
                     return None;
                 }
-                Some(Plan::Fail(k, off))
+                Plan::Fail(k, off)
             } else {
-                Some(Plan::Stall(p.strip_prefix("stall=")?.parse().ok()?))
+                Plan::Stall(p.strip_prefix("stall=")?.parse().ok()?)
             }
         }
-        _ => None,
-    }
+        _ => return None,
+    };
+    Some((plan, delays))
 }
 
 fn unhex_opt(s: &str) -> Option<Vec<u8>> {
@@ -600,14 +661,41 @@ impl Session {
             opens: BTreeMap::new(),
             outs: BTreeMap::new(),
             ins: Vec::new(),
+            held: BTreeMap::new(),
         }
     }
 
+    /// Run until nothing can make progress: a slow far end that is still taking its time keeps the
+    /// protocol busy beyond one round, and a write that stalls late in a round times out in the next.
+    /// The run ends with the first round in which no far end saw anything happen.
     async fn settle(&mut self) {
-        tokio::time::sleep(SETTLE).await;
+        let mut before = self.activity();
+        for _ in 0..MAX_SETTLE_ROUNDS {
+            tokio::time::sleep(SETTLE).await;
+            let now = self.activity();
+            let busy = self.outs.values().any(|out| {
+                let s = out.shared.lock().unwrap();
+                s.sleeping && !s.dropped && !s.failed
+            });
+            if !busy && now == before {
+                break;
+            }
+            before = now;
+        }
     }
 
-    fn drain(&mut self) -> String {
+    /// What the far ends of the outbound substreams have seen so far.
+    fn activity(&self) -> Vec<(Option<tokio::time::Instant>, usize, bool, bool, bool)> {
+        self.outs
+            .values()
+            .map(|out| {
+                let s = out.shared.lock().unwrap();
+                (s.accepted_at, s.data.len(), s.failed, s.dropped, s.waker.is_some())
+            })
+            .collect()
+    }
+
+    fn drain(&mut self, t0: tokio::time::Instant) -> String {
         let mut calls = Vec::new();
         while let Ok(cmd) = self.cmd_rx.try_recv() {
             if let InnerTransportManagerCommand::DialPeer { peer } = cmd {
@@ -663,7 +751,11 @@ impl Session {
         let mut writes = Vec::new();
         for (n, out) in self.outs.iter() {
             if let Some(w) = out.take() {
-                writes.push(format!("s{n}={w}"));
+                let at = out.shared.lock().unwrap().accepted_at;
+                match at.map(|at| at.saturating_duration_since(t0).as_millis()) {
+                    Some(ms) if ms > 0 && !w.starts_with('~') => writes.push(format!("s{n}@{ms}={w}")),
+                    _ => writes.push(format!("s{n}={w}")),
+                }
             }
         }
         let snap = SNAP.with(|s| s.borrow().clone());
@@ -800,6 +892,7 @@ impl Session {
     }
 
     pub async fn step(&mut self, line: &str) -> String {
+        let t0 = tokio::time::Instant::now();
         let t: Vec<&str> = line.split_whitespace().filter(|a| !a.starts_with("h=")).collect();
         let n = |s: &str| s.parse::<u64>().ok().filter(|p| (1..=9).contains(p));
         let bad = || "bad-op".to_string();
@@ -883,7 +976,7 @@ impl Session {
                 "ok".into()
             }
             ["subopen", s, rest @ ..] => {
-                let (Some(k), Some(plan)) = (idx(s, 's'), parse_plan(rest)) else { return bad() };
+                let (Some(k), Some((plan, delays))) = (idx(s, 's'), parse_plan(rest)) else { return bad() };
                 match self.opens.remove(&k) {
                     None => "none".into(),
                     Some((p, permit)) => {
@@ -895,6 +988,10 @@ impl Session {
                             in_frame: 0,
                             frames: 0,
                             plan,
+                            delays,
+                            slept: false,
+                            sleeping: false,
+                            accepted_at: None,
                             failed: false,
                             dropped: false,
                             waker: None,
@@ -902,7 +999,7 @@ impl Session {
                         let substream = Substream::new_verif(
                             peer(p),
                             SubstreamId::from(sid),
-                            Box::new(OutIo(Arc::clone(&shared))),
+                            Box::new(OutIo(Arc::clone(&shared), None)),
                             self.codec.clone(),
                         );
                         self.outs.insert(k, Out { shared });
@@ -940,7 +1037,7 @@ impl Session {
                 }
             }
             ["plan", s, rest @ ..] => {
-                let (Some(k), Some(plan)) = (idx(s, 's'), parse_plan(rest)) else { return bad() };
+                let (Some(k), Some((plan, delays))) = (idx(s, 's'), parse_plan(rest)) else { return bad() };
                 if rest.is_empty() {
                     return bad();
                 }
@@ -952,6 +1049,7 @@ impl Session {
                             "none".into()
                         } else {
                             s.plan = plan;
+                            s.delays = delays;
                             s.frames = 0;
                             if let Some(w) = s.waker.take() {
                                 w.wake();
@@ -1003,9 +1101,38 @@ impl Session {
                     }
                 }
             }
-            [op @ ("inmsg" | "inbad" | "inbig" | "inclose" | "inreset"), i, rest @ ..] => {
+            [op @ ("inmsg" | "inbad" | "inbig" | "inclose" | "inreset" | "inrest"), i, rest @ ..] => {
                 let Some(k) = idx(i, 'i') else { return bad() };
-                let bytes = match (*op, rest) {
+                // how the frame arrives: in one piece, in pieces with virtual time in between, or only
+                // its beginning now
+                let mut cuts: Vec<usize> = Vec::new();
+                let mut gap = 0u64;
+                let mut hold: Option<usize> = None;
+                let mut args: Vec<&str> = Vec::new();
+                for a in rest {
+                    if let Some(c) = a.strip_prefix("cut=") {
+                        let Some(c) = c.split(',').map(|x| x.parse().ok()).collect::<Option<Vec<usize>>>() else {
+                            return bad();
+                        };
+                        if *op != "inmsg" || c.is_empty() || c.len() > MAX_DELAYS {
+                            return bad();
+                        }
+                        cuts = c;
+                    } else if let Some(g) = a.strip_prefix("gap=") {
+                        match g.parse::<u64>() {
+                            Ok(g) if *op == "inmsg" && g <= MAX_DELAY_MS => gap = g,
+                            _ => return bad(),
+                        }
+                    } else if let Some(h) = a.strip_prefix("hold=") {
+                        match h.parse::<usize>() {
+                            Ok(h) if *op == "inmsg" => hold = Some(h),
+                            _ => return bad(),
+                        }
+                    } else {
+                        args.push(a);
+                    }
+                }
+                let bytes = match (*op, args.as_slice()) {
                     ("inmsg", rest) => match Self::inbound_message(rest) {
                         Some(m) => Some(frame(&m)),
                         None => return bad(),
@@ -1025,17 +1152,55 @@ impl Session {
                         b.push(len as u8);
                         Some(b)
                     }
-                    ("inclose", []) | ("inreset", []) => None,
+                    ("inclose", []) | ("inreset", []) | ("inrest", []) => None,
                     _ => return bad(),
                 };
+                // (a frame of one byte - the empty message - cannot be held)
+                if hold.is_some() && bytes.as_ref().map_or(true, |b| b.len() < 2) {
+                    return bad();
+                }
+                let writes = matches!(*op, "inmsg" | "inbad" | "inbig");
                 match self.ins.get(k) {
                     None => "none".into(),
                     Some((_, ctl)) if ctl.local_closed() => "none".into(),
+                    // the rest of a held frame must come first
+                    Some(_) if writes && self.held.contains_key(&k) => "none".into(),
+                    Some((_, ctl)) if *op == "inrest" => match self.held.remove(&k) {
+                        None => "none".into(),
+                        Some(rest) => {
+                            ctl.remote_write(&rest);
+                            "ok".into()
+                        }
+                    },
                     Some((_, ctl)) => {
+                        let ctl = ctl.clone();
                         match bytes {
-                            Some(b) => ctl.remote_write(&b),
-                            None if *op == "inclose" => ctl.remote_close(),
-                            None => ctl.reset(),
+                            Some(b) =>
+                                if let Some(h) = hold {
+                                    let h = h.clamp(1, b.len() - 1);
+                                    ctl.remote_write(&b[..h]);
+                                    self.held.insert(k, b[h..].to_vec());
+                                } else {
+                                    cuts.retain(|c| *c > 0 && *c < b.len());
+                                    cuts.sort();
+                                    cuts.dedup();
+                                    let mut from = 0;
+                                    for c in cuts {
+                                        ctl.remote_write(&b[from..c]);
+                                        from = c;
+                                        // the protocol sees the piece, then time passes
+                                        tokio::time::sleep(Duration::from_millis(gap.max(1))).await;
+                                    }
+                                    ctl.remote_write(&b[from..]);
+                                },
+                            None => {
+                                self.held.remove(&k);
+                                if *op == "inclose" {
+                                    ctl.remote_close()
+                                } else {
+                                    ctl.reset()
+                                }
+                            }
                         }
                         "ok".into()
                     }
@@ -1044,7 +1209,7 @@ impl Session {
             _ => return bad(),
         };
         self.settle().await;
-        let tail = self.drain();
+        let tail = self.drain(t0);
         format!("{res};{tail}")
     }
 }
